@@ -274,6 +274,8 @@ pub struct EncRun {
     pub nontrivial: bool,
     pub aborted: Option<String>,
     pub env_calls: usize,
+    /// the environment has delivered the whole stream and raised EOF
+    pub env_done: bool,
     pub ops: Vec<Op>,
     pub events: usize,
     /// PIPE: what the downstream decoder produced
@@ -438,6 +440,7 @@ pub fn drive_enc(spec: &EncSpec, mode: EncMode, source: &mut dyn OpSource, mut p
         nontrivial: false,
         aborted: None,
         env_calls: 0,
+        env_done: false,
         ops: Vec::new(),
         events: 0,
         pipe_text: String::new(),
@@ -462,6 +465,7 @@ pub fn drive_enc(spec: &EncSpec, mode: EncMode, source: &mut dyn OpSource, mut p
     let max_events = 20_000usize;
 
     loop {
+        run.env_done = eof && visible == nchars;
         let view = View { remaining: nchars - visible, visible, pending: visible - consumed_chars, eof, finished: run.finished, min_cap: min, last_full };
         let op = match source.next(&view) {
             Some(op) => op,
